@@ -383,11 +383,14 @@ def search_cases(tier, seed, diverging):
 # ---------------------------------------------------------------------------------------------
 class FakeSocket(object):
   """Stands in for gevent.socket.socket: send/sendall capture, recv/recv_into follow a script of sizes."""
-  current = None        # the script the next created socket will follow
+  current = None        # the script of the transaction in progress (one connection, one script per transaction)
 
   def __init__(self, *a, **k):
-    self.script = FakeSocket.current
     self.closed = False
+
+  @property
+  def script(self):
+    return FakeSocket.current
 
   def connect(self, addr):
     pass
@@ -689,79 +692,113 @@ def _describe_exc(method, e, faulted):
   return d
 
 
-def _one_run(case, ch, rng_seed):
-  S = _S
-  import random
-  method = case['method']
-  record = {}
+class Session(object):
+  """One sink chain instance (ThriftSerializerSink -> SocketTransportSink -> socket) over one connection."""
 
-  def responder(written):
-    payload = serve(case, written, record)
-    record['reply_payload_len'] = len(payload)
-    if _result_cls(method) is None and not payload:
-      stream = b''                   # oneway: the server sends nothing
-      flen = 0
+  def __init__(self, sock_kind):
+    FakeSocket.current = Script(lambda written: (b'', []), None)
+    self.sink = _make_sink(sock_kind)
+    self.faults = []
+    self.sink.next_sink.on_faulted.Subscribe(lambda v: self.faults.append(type(v).__name__))
+    self.sink.next_sink.Open().get(timeout=5)
+
+  def close(self):
+    try:
+      self.sink.next_sink.Close()
+    except Exception:
+      pass
+
+  def call(self, case, ch):
+    S = _S
+    import random
+    method = case['method']
+    record = {}
+
+    def responder(written):
+      payload = serve(case, written, record)
+      record['reply_payload_len'] = len(payload)
+      if _result_cls(method) is None and not payload:
+        stream = b''                   # oneway: the server sends nothing
+        flen = 0
+      else:
+        stream = mangle(case.get('mangle'), payload, random.Random(case.get('mseed', 0)))
+        flen = len(stream)
+        if case.get('extra') == 'frame':
+          stream += struct.pack('!i', 3) + b'abc'
+        elif case.get('extra') == 'junk':
+          stream += b'\xff\xfe\x00\x07'
+      record['frame_len'] = flen
+      return stream, sizes_for(ch, len(stream), flen)
+
+    script = Script(responder, case.get('send_cap'))
+    FakeSocket.current = script
+    nfaults = len(self.faults)
+    aspec = [e for e in _args_spec(method) if e is not None]
+    args = tuple(from_json(a, e[1], e[3]) for a, e in zip(case['args'], aspec))
+    by = {e[2]: e for e in aspec}
+    kwargs = {k: from_json(v, by[k][1], by[k][3]) for k, v in case['kwargs'].items()}
+    msg = S['MethodCallMessage'](_iface().Iface, method, args, kwargs)
+    deadline = case.get('deadline')
+    ar = S['MessageDispatcher'].StaticDispatchMessage(self.sink, None, time.time(), deadline, msg)
+    ar.wait(timeout=10)
+    run = {'sent': list(b''.join(script.sent)), 'pieces': len(script.sent), 'server': record,
+           'stream': list(script.stream or b''), 'sizes': script.sizes or [], 'left': script.left(), 'recvs': script.recvs}
+    if not ar.ready():
+      run['caller'] = {'hung': True}
+      return run
+    faulted = len(self.faults) > nfaults
+    if ar.successful():
+      v = ar.value
+      rc = _result_cls(method)
+      succ = rc.thrift_spec[0] if rc is not None and rc.thrift_spec and rc.thrift_spec[0] is not None else None
+      if v is None:
+        run['caller'] = {'ret': None, 'faulted': faulted}
+      else:
+        try:
+          if succ is None:
+            raise Unexpected(repr(v))
+          run['caller'] = {'ret': to_json(v, succ[1], succ[3]), 'faulted': faulted}
+        except Unexpected as u:
+          run['caller'] = {'ret_unexpected': str(u)[:200], 'is_exception': isinstance(v, BaseException),
+                           'cls': type(v).__name__, 'faulted': faulted}
     else:
-      stream = mangle(case.get('mangle'), payload, random.Random(case.get('mseed', 0)))
-      flen = len(stream)
-      if case.get('extra') == 'frame':
-        stream += struct.pack('!i', 3) + b'abc'
-      elif case.get('extra') == 'junk':
-        stream += b'\xff\xfe\x00\x07'
-    record['frame_len'] = flen
-    return stream, sizes_for(ch, len(stream), flen)
-
-  script = Script(responder, case.get('send_cap'))
-  FakeSocket.current = script
-  sink = _make_sink(case['sock'])
-  faults = []
-  sink.next_sink.on_faulted.Subscribe(lambda v: faults.append(type(v).__name__))
-  sink.next_sink.Open().get(timeout=5)
-  aspec = [e for e in _args_spec(method) if e is not None]
-  args = tuple(from_json(a, e[1], e[3]) for a, e in zip(case['args'], aspec))
-  by = {e[2]: e for e in aspec}
-  kwargs = {k: from_json(v, by[k][1], by[k][3]) for k, v in case['kwargs'].items()}
-  msg = S['MethodCallMessage'](_iface().Iface, method, args, kwargs)
-  deadline = case.get('deadline')
-  ar = S['MessageDispatcher'].StaticDispatchMessage(sink, None, time.time(), deadline, msg)
-  ar.wait(timeout=10)
-  run = {'sent': list(b''.join(script.sent)), 'pieces': len(script.sent), 'server': record,
-         'stream': list(script.stream or b''), 'sizes': script.sizes or [], 'left': script.left(), 'recvs': script.recvs}
-  if not ar.ready():
-    run['caller'] = {'hung': True}
+      run['caller'] = _describe_exc(method, ar.exception, faulted)
     return run
-  faulted = bool(faults)
-  if ar.successful():
-    v = ar.value
-    rc = _result_cls(method)
-    succ = rc.thrift_spec[0] if rc is not None and rc.thrift_spec and rc.thrift_spec[0] is not None else None
-    if v is None:
-      run['caller'] = {'ret': None, 'faulted': faulted}
-    else:
-      try:
-        if succ is None:
-          raise Unexpected(repr(v))
-        run['caller'] = {'ret': to_json(v, succ[1], succ[3]), 'faulted': faulted}
-      except Unexpected as u:
-        run['caller'] = {'ret_unexpected': str(u)[:200], 'is_exception': isinstance(v, BaseException),
-                         'cls': type(v).__name__, 'faulted': faulted}
-  else:
-    run['caller'] = _describe_exc(method, ar.exception, faulted)
+
+
+def _one_run(case, ch):
+  ses = Session(case['sock'])
   try:
-    sink.next_sink.Close()
-  except Exception:
-    pass
-  return run
+    return ses.call(case, ch)
+  finally:
+    ses.close()
+
+
+def _call_case(case, op):
+  """The i-th call of a sequence as a stand-alone rpc case (same shape the single-call code works on)."""
+  c = dict(op)
+  c.update(kind='rpc', sock=case['sock'], ops=[op['ch']])
+  return c
 
 
 def run_impl(case):
   setup()
   if case['kind'] == 'timeout':
     c = dict(case, args=[], kwargs={}, handler={'do': 'none'}, deadline=time.time() - 1.0)
-    return {'runs': [_one_run(c, {'k': 'whole', 'seed': 0}, 0)]}
+    return {'runs': [_one_run(c, {'k': 'whole', 'seed': 0})]}
+  if case['kind'] == 'seq':
+    # several calls through ONE sink chain instance and one connection, in order
+    ses = Session(case['sock'])
+    runs = []
+    try:
+      for op in case['ops']:
+        runs.append(ses.call(_call_case(case, op), op['ch']))
+    finally:
+      ses.close()
+    return {'runs': runs}
   runs = []
   for i, ch in enumerate(case['ops']):
-    runs.append(_one_run(case, ch, ch['seed']))
+    runs.append(_one_run(case, ch))
   return {'runs': runs}
 
 
@@ -823,6 +860,15 @@ def _library_client_outcome(method, payload):
 
 
 def monitor(case, obs):
+  if case['kind'] == 'seq':
+    # every call of the sequence must satisfy the property on its own, whatever went through the sink before it
+    v = []
+    for i, (op, run) in enumerate(zip(case['ops'], obs['runs'])):
+      prev = ', '.join('%s(%d B)' % (o['method'], len(r['sent'])) for o, r in zip(case['ops'][:i], obs['runs'][:i]))
+      for sig, m in monitor(_call_case(case, op), {'runs': [run]}):
+        v.append((sig, 'call #%d of the sequence (%s, %d bytes sent; before it on the same sink: %s): %s' %
+                  (i, op['method'], len(run['sent']), prev or 'nothing', m)))
+    return v
   v = []
   _iface()
   method = case['method']
@@ -1023,6 +1069,13 @@ def _caller_term(method, c, eof_ok):
 
 def to_coq(case, obs):
   _iface()
+  if case['kind'] == 'seq':
+    terms = []
+    for op, run in zip(case['ops'], obs['runs']):
+      t = to_coq(_call_case(case, op), {'runs': [run]})
+      if t is not None:
+        terms.append(t)
+    return terms or None
   method = case['method']
   if case['kind'] == 'timeout':
     return 'CTimeout (%s)' % _caller_term(method, obs['runs'][0]['caller'], False)
@@ -1054,7 +1107,7 @@ def to_coq(case, obs):
 
 
 def nontrivial(case, obs):
-  if case['kind'] != 'rpc':
+  if case['kind'] not in ('rpc', 'seq'):
     return False
   return any(r['sent'] and r['stream'] for r in obs['runs'])
 
